@@ -421,6 +421,10 @@ def classify(program, block, ds, seq, valid, real):
             return "mismatch:%s%s" % (cls, su or ":valid-flagged")
         if fs:
             return "mismatch:factors:valid-flagged"
+        from sweetpea._internal.cross_block import AlignmentMode
+        if block.alignment == AlignmentMode.POST_PREAMBLE and block._alignment_preamble > max(block.preamble_sizes + [0]):
+            # same root cause as the accepts-invalid direction: an uncrossed complex factor delays every crossing
+            return "mismatch:crossing:valid-flagged:alignment-preamble"
         if code_chunks(block) != doc_chunks(block, ds):
             # the crossing geometry itself (chunk length / multiplicities: properties C16, C23) differs from the documentation
             return "mismatch:crossing:valid-flagged:chunk-differs"
